@@ -315,6 +315,7 @@ proof fn lemma_add_finish_ok<L: EdgeLabel, V>(n0: NfaBuilder<L, V>, cur: NfaBuil
         forall|k: int| 0 <= k < pat.len() ==> !skipped_view(n0.skipped).contains(pat) || !#[trigger] is_registered(n0, pat.take(k)),
     ensures add_inv(fin), !seen(n0, pat),
         forall|q: Seq<L>| #[trigger] seen(fin, q) <==> (seen(n0, q) || q == pat),
+        forall|q: Seq<L>| #[trigger] is_registered(fin, q) <==> (is_registered(n0, q) || q == pat),
 {
     reveal(add_mid);
     let l0 = n0.states@.len();
@@ -369,4 +370,33 @@ proof fn lemma_add_finish_ok<L: EdgeLabel, V>(n0: NfaBuilder<L, V>, cur: NfaBuil
             assert(fin.states@[t] == cur.states@[t]);
         }
     }
+}
+
+// ---- values: the output stored for a registered pattern is the value the caller passed, and later adds do not touch it ----
+spec fn reg_out<L, V>(n: NfaBuilder<L, V>, q: Seq<L>) -> Option<(V, NonZeroU32)> { n.states@[walk(n, q).unwrap()].output }
+
+proof fn lemma_add_values<L: EdgeLabel, V>(n0: NfaBuilder<L, V>, cur: NfaBuilder<L, V>, fin: NfaBuilder<L, V>, pat: Seq<L>, sid: int, out: (V, NonZeroU32))
+    requires add_inv(n0), add_mid(n0, cur, pat, pat.len() as int, sid), pat.len() > 0, cur.states@[sid].output.is_none(),
+        with_output(cur, fin, sid, out),
+    ensures is_registered(fin, pat), reg_out(fin, pat) == Some(out),
+        forall|q: Seq<L>| is_registered(n0, q) ==> #[trigger] reg_out(fin, q) == reg_out(n0, q),
+{
+    reveal(add_mid);
+    assert(pat.take(pat.len() as int) =~= pat);
+    lemma_walk_range(cur, pat);
+    assert forall|t: int| 0 <= t < cur.states@.len() implies #[trigger] t_edges(fin, t) == t_edges(cur, t) by { if t != sid { assert(fin.states@[t] == cur.states@[t]); } }
+    assert forall|q: Seq<L>| walk(fin, q) == walk(cur, q) by { lemma_walk_same_edges(fin, cur, q); }
+    assert forall|q: Seq<L>| is_registered(n0, q) implies #[trigger] reg_out(fin, q) == reg_out(n0, q) by {
+        let t = walk(n0, q).unwrap();
+        lemma_walk_range(n0, q);
+        assert(walk(cur, q) == Some(t));
+        assert(t != sid);
+        assert(fin.states@[t] == cur.states@[t]);
+    }
+}
+proof fn lemma_same_states_values<L, V>(a: NfaBuilder<L, V>, b: NfaBuilder<L, V>)
+    requires a.states@ == b.states@,
+    ensures forall|q: Seq<L>| #[trigger] reg_out(b, q) == reg_out(a, q), forall|q: Seq<L>| walk(b, q) == walk(a, q),
+{
+    assert forall|q: Seq<L>| walk(b, q) == walk(a, q) by { lemma_walk_same_edges(b, a, q); }
 }
